@@ -173,7 +173,9 @@ func (op Addp) Simulate(vm *VM, instr string) error {
 	regDest := get_id(instr[:regBits])
 	regSrc := get_id(instr[regBits : regBits*2])
 
-	if *op.pipeline {
+	// The pipeline phase belongs to the simulated processor, not to the (process wide) opcode object
+	phase, _ := vm.Extra_states["addpPipeline"].(bool)
+	if phase {
 		switch vm.Mach.Rsize {
 		case 8:
 			vm.Registers[regDest] = vm.Registers[regDest].(uint8) + vm.Registers[regSrc].(uint8)
@@ -187,9 +189,9 @@ func (op Addp) Simulate(vm *VM, instr string) error {
 			return errors.New("invalid register size")
 		}
 		vm.Pc = vm.Pc + 1
-		*op.pipeline = false
+		vm.Extra_states["addpPipeline"] = false
 	} else {
-		*op.pipeline = true
+		vm.Extra_states["addpPipeline"] = true
 	}
 	return nil
 }
